@@ -110,6 +110,7 @@ func (in *Interp) resetPath(p pendingPath) {
 	in.callDepth = 0
 	in.timeCounter = 0
 	in.dom = map[int]*byteDom{}
+	in.tagOverride = map[tagKey]Str{}
 	in.multi = map[int]bool{}
 }
 
